@@ -100,15 +100,16 @@ theorem separate_signs_is_enough (cw : CW) (ks : List LP.Key) (fc : Bytes → Bo
   LP.sep_lex h hst c w hc
 
 /-- PRINT → LEX → PARSE, compact mode, end to end: for every well-formed program tree with lexically sane tokens that
-    carry no positions / line-break flags / comments (programmatic trees; a parsed tree after erasing its trivia), in each
-    of the four parser modes and for every compact option set: the parser, run on the TEXT the compiler emits, returns —
-    without any error — a tree that is the original one once the positions of its tokens are set to zero.
+    carry no line-break flags / comments (programmatic trees; a parsed tree after erasing its trivia; positions are
+    arbitrary), in each of the four parser modes and for every compact option set: the parser, run on the TEXT the compiler
+    emits, returns — without any error — a tree that equals the original one up to the positions of its tokens
+    (`stmtListZ` sets every position to zero).
     (`compact_text_lexes4` ∘ `Pos.pos_parseProgram`: parsing commutes with erasing positions ∘ `printed_program_round_trip`,
     and the parser terminates.) -/
 theorem compact_text_parses_back_to_the_tree (tolerant smart : Bool) (ccfg : CompCfg) (hc : ccfg.pretty = false) (prog : SSList)
-    (hw : prog.wf = true) (hterm : prog.term = true) (hs : LP.saneB prog) (hn : ∀ t ∈ prog.toks, LP.normalTok t) :
+    (hw : prog.wf = true) (hterm : prog.term = true) (hs : LP.saneB prog) (hn : ∀ t ∈ prog.toks, LP.quietTok t) :
     ∃ r, parseSource { tolerant := tolerant, smart := smart } (compile ccfg prog.tree).code = some r ∧
-      Pos.stmtListZ r.prog = prog.tree ∧ r.errors = [] ∧ r.hasErr = false :=
+      Pos.stmtListZ r.prog = Pos.stmtListZ prog.tree ∧ r.errors = [] ∧ r.hasErr = false :=
   LP.compact_round_trip tolerant smart ccfg hc prog hw hterm hs hn
 
 /-- parsing commutes with erasing token positions: the parser reads of a token only its type, literal and after-newline
@@ -125,6 +126,14 @@ theorem tokens_from_the_lexer_are_spelled (s : LS) :
     (LP.canon (nextToken s).1.type ≠ [] → (nextToken s).1.lit = LP.canon (nextToken s).1.type) ∧
     ((nextToken s).1.type = .ident → LP.identOk (nextToken s).1.lit = true) :=
   LP.nextToken_sane s
+
+/-- tie of the spelling table `LP.canon` to the Go source: every entry of the lexer's operator / delimiter dispatch
+    (re-extracted on every run) other than ILLEGAL spells its token as `canon` says, and every operator / delimiter type
+    of `canon` has an entry -/
+theorem spelling_table_is_lexer_dispatch :
+    (∀ e ∈ Gen.lexerDispatch, e.2.2 ≠ 0 → LP.canon (TokType.ofNat e.2.2) = (if e.2.1 = 0 then [e.1] else [e.1, e.2.1])) ∧
+    (∀ t ∈ TokType.builtins, LP.canon t ≠ [] → isLetter ((LP.canon t).headD 0) = false →
+      Gen.lexerDispatch.any (fun e => e.2.2 == t.toNat) = true) := by decide
 
 /-- sufficient, decidable conditions for the literal hypotheses -/
 theorem literal_sanity_conditions :
@@ -207,7 +216,7 @@ example : LP.saneB prog2 := by
     ⟨hk _ (by decide) (by decide) (by decide) (by decide) (by decide) (by decide), hx,
       hk _ (by decide) (by decide) (by decide) (by decide) (by decide) (by decide), hx,
       hk _ (by decide) (by decide) (by decide) (by decide) (by decide) (by decide), hx⟩, trivial⟩
-example : ∀ t ∈ prog2.toks, LP.normalTok t := by decide
+example : ∀ t ∈ prog2.toks, LP.quietTok t := by decide
 /-- the text is `let x=1;x=x- -x;` (the blank keeps the two signs apart) -/
 example : (compile {} prog2.tree).code = [108, 101, 116, 32, 120, 61, 49, 59, 120, 61, 120, 45, 32, 45, 120, 59] := by decide +kernel
 
@@ -220,6 +229,7 @@ end Xjs.C03
 #print axioms Xjs.C03.expression_text_lexes
 #print axioms Xjs.C03.separate_signs_is_enough
 #print axioms Xjs.C03.tokens_from_the_lexer_are_spelled
+#print axioms Xjs.C03.spelling_table_is_lexer_dispatch
 #print axioms Xjs.C03.literal_sanity_conditions
 #print axioms Xjs.C03.printed_tokens_parse_back
 #print axioms Xjs.C03.printed_statement_parses_back
